@@ -2130,7 +2130,9 @@ FIXED = {"C19-N02": "b4434a4", "C19-N03": "d384651", "A-42": "f9fb7ec", "A-44": 
          "C19-N10": "d3df9c1", "C19-N12": "922ff4e", "C19-N13": "7d1fad0", "C19-N14": "f8cdd2b", "C19-N15": "03352d0",
          "C19-N01": "072fe0a", "C19-N09": "4943733", "C19-N16": "2c0f010", "C19-N17": "929a206", "C19-N19": "3b2d1cd",
          "C19-N20": "dc71f18", "C19-N21": "76fa98e", "C19-N22": "db95721", "C19-N23": "453f75b", "C19-N24": "d89c921",
-         "C19-N25": "b9311d6", "C19-N26": "553ad5e", "C19-N27": "98f7017", "C19-N28": "0478ea5"}
+         "C19-N25": "b9311d6", "C19-N26": "553ad5e", "C19-N27": "98f7017", "C19-N28": "0478ea5",
+    "C19-N29": "9d2314a",
+}
 # C19-N29 (fixes/C19-N29.diff = 9d2314a, pending until C02's reconstruct model follows): the lead adds  "C19-N29": "<commit>"  above —
 # trigger and witness go, and the correspondence runs guard_reconstruct_fixed (the method WITH the range / distinctness test:
 # C19_reconstruct_repaired, guard = decide pre for all requests) instead of guard_reconstruct (the method of the tree without it).
